@@ -17,6 +17,7 @@ import SfntV.Proofs.OtlGposMark4
 import SfntV.Proofs.OtlGpos22
 import SfntV.Proofs.OtlContext
 import SfntV.Proofs.OtlLookupRead
+import SfntV.Proofs.OtlCovRange
 
 namespace SfntV.Props.C08
 open SfntV SfntV.Otl
@@ -748,6 +749,48 @@ flags, mark filtering sets (present exactly with flag 0x0010) and subtable posit
 theorem C08_readlookuplist_sound (b : Bytes) (extType : Nat) (ls : List (LL.ReadLookup Nat))
     (h : LL.readLL b extType = .ok ls) : LL.specRead b extType = some (ls.map LL.toSpec) :=
   LL.readLL_spec b extType ls h
+
+/-! ## Post-condition of the subtable readers: coverage indices are in range
+
+`InRange cov n`: every coverage index of `cov` is below `n`.  On EVERY byte string (not only encoder
+output) a reader accepts, every coverage table it returns indexes only into the array delivered next to
+it: when the count in the bytes disagrees with the coverage table the readers prune the coverage or cut
+the array.  This is the reader shape the shaping engine (C07) assumes. -/
+
+/-- `coverage.Read` returns the coverage indices 0 .. n-1 -/
+theorem C08_reader_cov_in_range_coverage (b : Bytes) (es : List (Nat × Nat)) (h : Cov.read b = .ok es) :
+    InRange es es.length := Cov.read_idx b es h
+
+theorem C08_reader_cov_in_range_gsub1_2 (b : Bytes) (cov : List (Nat × Nat)) (subs : List Nat)
+    (h : Gsub.read12 b = .ok (cov, subs)) : InRange cov subs.length := Gsub.read12_inRange b cov subs h
+
+theorem C08_reader_cov_in_range_gsub2_1_3_1 (b : Bytes) (cov : List (Nat × Nat)) (seqs : List (List Nat))
+    (h : Gsub.readSeq b = .ok (cov, seqs)) : InRange cov seqs.length := Gsub.readSeq_inRange b cov seqs h
+
+theorem C08_reader_cov_in_range_gsub4_1 (b : Bytes) (cov : List (Nat × Nat)) (repl : List (List Gsub.Lig))
+    (h : Gsub.read41 b = .ok (cov, repl)) : InRange cov repl.length := Gsub.read41_inRange b cov repl h
+
+theorem C08_reader_cov_in_range_gsub8_1 (b : Bytes) (r : Gsub.Rev81) (h : Gsub.read81 b = .ok r) :
+    InRange r.input r.subs.length := Gsub.read81_inRange b r h
+
+theorem C08_reader_cov_in_range_gpos1_2 (b : Bytes) (cov : List (Nat × Nat)) (vrs : List Gpos.VR)
+    (h : Gpos.read12 b = .ok (cov, vrs)) : InRange cov vrs.length := Gpos.read12_inRange b cov vrs h
+
+theorem C08_reader_cov_in_range_gpos3_1 (b : Bytes) (cov : List (Nat × Nat)) (recs : List GposMark.EntryExit)
+    (h : GposMark.read31 b = .ok (cov, recs)) : InRange cov recs.length := GposMark.read31_inRange b cov recs h
+
+/-- GPOS 4.1 / 6.1: mark coverage against the mark array AND base (mark2) coverage against the base
+(mark2) array -/
+theorem C08_reader_cov_in_range_gpos4_1_6_1 (b : Bytes) (r : GposMark.MarkBase) (h : GposMark.read41 b = .ok r) :
+    InRange r.mcov r.marks.length ∧ InRange r.bcov r.bases.length := GposMark.read41_inRange b r h
+
+theorem C08_reader_cov_in_range_seqcontext1 (b : Bytes) (ch : Bool) (cov : List (Nat × Nat))
+    (sets : List (Option (List Ctx.Rule))) (h : Ctx.read1 b = .ok (.c1 ch cov sets)) :
+    InRange cov sets.length := Ctx.read1_inRange b ch cov sets h
+
+theorem C08_reader_cov_in_range_chainedseqcontext1 (b : Bytes) (ch : Bool) (cov : List (Nat × Nat))
+    (sets : List (Option (List Ctx.Rule))) (h : Ctx.readC1 b = .ok (.c1 ch cov sets)) :
+    InRange cov sets.length := Ctx.readC1_inRange b ch cov sets h
 
 /-! Non-vacuity: `DFLT` with a default language system and `latn` with `TRK ` (that `SL.known` holds of
 these tags is evaluated, not kernel-reduced — `String.toUTF8` does not reduce —: the stream
